@@ -30,6 +30,8 @@ type Conn struct {
 	Remote  Addr
 	WScript []WOutcome // scripted write outcomes (fault injection)
 	ReadPos int
+	WriteDelays []time.Duration // virtual time the k-th Write takes before it returns (a slow transport / peer)
+	nwrites  int
 	ClosedAt time.Duration // virtual time of the first Close
 	CloseBy  string
 }
@@ -99,6 +101,16 @@ func (c *Conn) Write(p []byte) (int, error) {
 	vs.BlockObj("net.write:"+c.Name, c, func() bool { return true })
 	if c.Closed {
 		return 0, ErrClosed
+	}
+	if c.nwrites < len(c.WriteDelays) && c.WriteDelays[c.nwrites] > 0 {
+		d := c.WriteDelays[c.nwrites]
+		c.nwrites++
+		vs.TimeSleep(d) // the caller stays blocked in Write while virtual time passes
+		if c.Closed {
+			return 0, ErrClosed
+		}
+	} else {
+		c.nwrites++
 	}
 	limit := len(p)
 	var ferr error
